@@ -89,8 +89,8 @@ def _scribble(rec, arr):
 
 def _iv(rng, p):
     d = {}
-    for j in range(p):
-        if rng.random() < 0.35:
+    for j in (int(v) for v in rng.permutation(p)):
+        if rng.random() < (0.35 if p < 20 else 2.0 / p):
             d[j] = (float(np.round(rng.uniform(-2, 2), 2)), float(np.round(rng.uniform(0, 2), 2))) if rng.random() < 0.7 else float(np.round(rng.uniform(-2, 2), 2))
     return d
 
@@ -107,7 +107,9 @@ def _history_on_dist(rec, rng, dist, steps, family, case):
         try:
             if c == 0:
                 idx = [int(v) for v in rng.permutation(p)[: int(rng.integers(1, p + 1))]]
-                r = dist.marginal(idx if rng.random() < 0.7 else np.array(idx))
+                if rng.random() < 0.2:
+                    idx = np.array([v - p if k_ % 2 else v for k_, v in enumerate(idx)])      # numpy-style negative indices, caller's array
+                r = dist.marginal(idx if not isinstance(idx, list) or rng.random() < 0.7 else np.array(idx))
                 _scribble(rec, r.mean)
                 _scribble(rec, r.covariance)
             elif c == 1 and p >= 2:
@@ -115,7 +117,11 @@ def _history_on_dist(rec, rng, dist, steps, family, case):
                 ny = int(rng.integers(1, p))
                 nx = int(rng.integers(1, p - ny + 1))
                 x = [float(v) for v in rng.normal(size=nx)]
-                r = dist.conditional(perm[:ny], perm[ny:ny + nx], x)
+                Yq, Xq = perm[:ny], perm[ny:ny + nx]
+                if rng.random() < 0.25:
+                    Yq = np.array([v - p if k_ % 2 == 0 else v for k_, v in enumerate(Yq)])
+                    Xq = np.array([v - p if k_ % 2 else v for k_, v in enumerate(Xq)])
+                r = dist.conditional(Yq, Xq, x)
                 rec.count("history:conditioning-calls")
                 _scribble(rec, r.mean)
                 _scribble(rec, r.covariance)
@@ -143,7 +149,9 @@ def _judge_model(kind, case, rec, family):
     import sempler.noise as noise
     rng = util.rng_for("C14", case["seed"], "m", case["k"])
     p = int(rng.integers(1, 7))
-    out = gmat.random_dag_masks(rng, p)
+    if kind == "lganm" and case["k"] % 30 == 0:
+        p = int(rng.integers(65, 75))          # more than 64 variables (bit-mask / print-summary territory)
+    out = gmat.random_dag_masks(rng, p) if p < 20 else gmat.random_dag_masks(rng, p, density=2.5 / p)
     steps = int(rng.integers(5, 41))
     if kind == "lganm":
         W = gmat.weighted(rng, out, "signed") if case["k"] % 2 else gmat.weighted(rng, out, "int", dtype=int)
